@@ -15,8 +15,9 @@ LEVEL_TEXT = ("Inv (child lists and parent pointers agree, no duplicates, parent
 LEVEL_NOTE = ("Trusted: Lean kernel, standard axioms only; the hand-written mirror lean/Anytree/Model/Forest.lean; hooks "
               "only observe or raise (they do not mutate the tree); asynchronous exceptions between the two statements "
               "of an ATOMIC block and mixed NodeMixin/LightNodeMixin trees are outside the model; non-node arguments to "
-              "LightNodeMixin classes are outside the model.")
-MODULES = ['Anytree.Props.C01', 'Anytree.Props.C01b', 'Anytree.Props.C01c', 'Anytree.Props.C01d']
+              "LightNodeMixin classes are outside the model."
+              " Hooks that make structural calls of their own are outside the model (its hooks observe or raise); one class of them - a hook that detaches ANOTHER node while the call is in progress - is exercised in the correspondence run against the mirror run on the nested call followed by the outer one (driver field pre_ops); for a parent assignment this equivalence is proved of the extended mirror (Model/ForestR.lean, C02r.setParentR_eq_seq, inv_setParentR); for children assignment/deletion it is searched, not proved.")
+MODULES = ['Anytree.Props.C01', 'Anytree.Props.C01b', 'Anytree.Props.C01c', 'Anytree.Props.C01d', 'Anytree.Props.C02r']
 THEOREMS = [
     ("Anytree.Props.C01.inv_empty", "full"),
     ("Anytree.Props.C01.inv_detachRaw", "full"),
@@ -43,6 +44,7 @@ THEOREMS = [
     ("Anytree.Props.C01c.fuel_suffices", "full"),
     ("Anytree.Props.C01d.fuel_suffices_faults", "full"),
     ("Anytree.Props.C01d.fuel_suffices_oneshot", "full"),
+    ("Anytree.Props.C02r.inv_setParentR", "full"),
 ]
 NOT_COVERED = ["the fuel of the mirror is proved never to be the reason for an outcome when the fault schedule is bounded (C01d.fuel_suffices_faults: faults only at invocation counters below B, fuel above s.n+B+5; C01c.fuel_suffices without faults); for an unbounded (persistent) schedule no fuel suffices, and the implementation agrees: RecursionError, finding K4 (K4_persistent_preAttachChildren_diverges)"]
 ASSERTION_SETTINGS = (False, True)
@@ -90,6 +92,17 @@ def generate(tier, rng):
             variants = rng.sample(variants, 6)
         for v in variants:
             yield dict(c, ops=c["ops"][:-1] + [v])
+    for _ in range(80 if tier == "quick" else 1000):
+        # trees mixing NodeMixin- and LightNodeMixin-based nodes are not supported by the library (an attach across the two
+        # families fails with AttributeError on the other family's private list) and are outside the mirror; but however such
+        # a call ends, both link directions must still agree afterwards (checked on the implementation alone)
+        n0 = rng.randrange(3, 7)
+        ops = [o for o in fc.random_history(rng, n0, rng.randrange(3, 11), nonnode=False) if o["op"] != "ctor"]
+        ops = [o for o in ops if max([o.get("n", 0)] + [x for x in (o.get("xs") or []) if isinstance(x, int)] + [o["v"] if isinstance(o.get("v"), int) else 0]) < n0]
+        c = fc.mk("nm", False, n0, ops, mixed=rng.choice([["mixin", "light"], ["light", "node", "anynode"], ["anynode", "light", "light"]]))
+        c["loglevel"] = 0
+        c["xfamily"] = True
+        yield c
     for n0, ops in fc.reentrant_histories(rng, tier):
         fl = rng.choice(["nm", "nm", "light"])
         c = fc.mk(fl, False, n0, ops, cls=(rng.choice(fc.NM_CLASSES) if fl == "nm" else None))
@@ -133,6 +146,8 @@ def judge(case, impl, drv):
     if not isinstance(impl, list):
         return False, False
     p_ok = all(fc.py_inv(r["snap"]) and r["res"] != "AssertionError" for r in impl)
+    if case.get("xfamily"):
+        return p_ok, True           # outside the mirror: the invariant is checked on the implementation alone
     mir = drv["mirror"]
     c_ok = True
     for i, r in enumerate(impl):
